@@ -5,8 +5,17 @@
 /// base/src/approx.rs `Approximation::value` as a spec function (used by the contract of `Approximation::map`)
 pub open spec fn rd_val0<T, E>(r: Approximation<T, E>) -> T { match r { Approximation::Exact(v) => v, Approximation::Inexact(v, _) => v } }
 
-pub open spec fn is_half(m: Mode) -> bool { match m { Mode::HalfEven => true, Mode::HalfAway => true, _ => false } }
-pub open spec fn sgn3i(a: int) -> int { if a < 0 { -1 } else if a == 0 { 0 } else { 1 } }
+/// base/src/approx.rs `Approximation::and_then` as a spec function: the second value; the second flag wins, an exact
+/// second stage keeps the first flag
+pub open spec fn and_then_spec<T, U, E>(s: Approximation<T, E>, o: Approximation<U, E>) -> Approximation<U, E> {
+    match s {
+        Approximation::Exact(_) => o,
+        Approximation::Inexact(_, e) => match o {
+            Approximation::Exact(v2) => Approximation::Inexact(v2, e),
+            Approximation::Inexact(v2, e2) => Approximation::Inexact(v2, e2),
+        },
+    }
+}
 
 // ------------------------------------------------------------------------------------------------------------------
 // C06 for rational -> float.  The exact value is x = N / D (D > 0).  For nat s, k the number x / b^(k - s) is the fraction
@@ -45,24 +54,30 @@ pub open spec fn ratio_representable(b: int, p: nat, N: int, D: int) -> bool {
 }
 
 /// precondition of `Repr::to_float` (and of the two forwarding methods)
-pub open spec fn tf_to_float_req(m: Mode, B: Word, precision: usize, N: int, D: int) -> bool {
+pub open spec fn tf_to_float_req(B: Word, precision: usize, N: int, D: int) -> bool {
     &&& B >= 2
     &&& precision > 0                                    // `assert!(precision > 0)`: panics otherwise
     &&& D > 0                                            // type invariant of the rational Repr (denominator is never zero)
-    // KNOWN FINDING (genuine defect of the repaired code, reproduced natively): for an ODD base and the modes
-    // HalfEven / HalfAway the sticky digit does not preserve the comparison with 1/2 (1/2 = 0.hhh.. with h = (B-1)/2):
-    // RBig 127/26 .to_float::<HalfAway, 3>(1) returns 1*3^1, correct is 2*3^1.  Excluded until /repo is repaired.
-    &&& (B % 2 == 0 || !is_half(m))
-    // machine ranges (overflow of usize / isize is outside this contract)
-    &&& precision < 0x1000_0000_0000_0000
-    &&& ndigits(B as int, N) < 0x1000_0000_0000_0000
-    &&& ndigits(B as int, D) < 0x1000_0000_0000_0000
+    // resource limits: overflow of usize / isize (digit counts, exponents) is a documented panic (C16), not modelled
+    &&& precision < 0x0100_0000_0000_0000
+    &&& ndigits(B as int, N) < 0x0100_0000_0000_0000
+    &&& ndigits(B as int, D) < 0x0100_0000_0000_0000
 }
 
-/// a result of `Repr::new` inside `repr_round`: zero is (0, 0), otherwise the last digit is non-zero
-pub open spec fn tf_inexact_normalized<const B: Word>(b: int, ret: Rounded<Repr<B>>) -> bool {
-    ret matches Approximation::Inexact(r, _) ==>
-        (r.significand.v() == 0 ==> r.exponent == 0) && (r.significand.v() != 0 ==> r.significand.v() % b != 0)
+/// contract of `Context::convert_int` (ctx = *self, p = its precision): ONE correct rounding of the integer n = n * B^0
+/// to p digits (0 = unlimited), Exact iff n has at most p significant digits, truthful flag (lib/farith_lemmas.rs
+/// round_val); an exact result is the normalized integer itself: zero is (0, 0), otherwise 0 <= exponent <= digits of n
+pub open spec fn tf_conv_post<R: Round, const B: Word>(m: Mode, b: int, n: int, ctx: Context<R>, o: Rounded<FBig<R, B>>) -> bool {
+    &&& round_val(m, b, ctx.precision, n, 0, map_repr(o))
+    &&& rd_val(o).context == ctx
+    &&& (o is Exact ==> tf_int_repr(rd_val(o).repr) && rd_val(o).repr.exponent <= ndigits(b, n))
+}
+/// the single rounding decision of to_float: `rounded` is hi (remainder r2 == 0) or hi + adj with the mode's rounding
+pub open spec fn tf_rounded(m: Mode, X: int, Dn: int, hi: int, r2: int, rounded: Rounded<IBig>) -> bool {
+    match rounded {
+        Approximation::Exact(n) => r2 == 0 && n.v() == hi,
+        Approximation::Inexact(n, adj) => r2 != 0 && n.v() == hi + adj_int(adj) && round_def(m, X, Dn, hi + adj_int(adj)),
+    }
 }
 /// the float of an integer: zero is (0, 0), otherwise the exponent is not negative
 pub open spec fn tf_int_repr<const B: Word>(r: Repr<B>) -> bool {
@@ -113,157 +128,27 @@ pub proof fn lemma_tf_sign(n: int, d: int, q: int, r: int)
     lemma_tf_abs_mul(q, d);
 }
 
-/// scaling numerator and denominator by c > 0 does not change the rounding
-pub proof fn lemma_tf_round_scale(m: Mode, X: int, D: int, c: int, r: int)
-    requires D > 0, c > 0, round_def(m, X, D, r)
-    ensures round_def(m, X * c, D * c, r), (r * D == X) == (r * (D * c) == X * c)
-{
-    let R = r * D;
-    let (X2, D2) = (X * c, D * c);
-    let R2 = r * D2;
-    assert(R2 == R * c) by (nonlinear_arith) requires R2 == r * D2, D2 == D * c, R == r * D;
-    let e = R - X;
-    let e2 = R2 - X2;
-    assert(e2 == e * c) by (nonlinear_arith) requires e2 == R2 - X2, R2 == R * c, X2 == X * c, e == R - X;
-    assert(-D2 < e2 && e2 < D2) by (nonlinear_arith) requires e2 == e * c, D2 == D * c, -D < e, e < D, c > 0;
-    assert((e == 0) == (e2 == 0)) by (nonlinear_arith) requires e2 == e * c, c > 0;
-    assert((e > 0) == (e2 > 0)) by (nonlinear_arith) requires e2 == e * c, c > 0;
-    assert((X > 0) == (X2 > 0) && (X < 0) == (X2 < 0)) by (nonlinear_arith) requires X2 == X * c, c > 0;
-    assert((R > 0) == (R2 > 0) && (R < 0) == (R2 < 0)) by (nonlinear_arith) requires R2 == R * c, c > 0;
-    let (a, a2) = (iabs(e), iabs(e2));
-    assert(a2 == a * c) by (nonlinear_arith) requires e2 == e * c, c > 0, a == (if e < 0 { -e } else { e }), a2 == (if e2 < 0 { -e2 } else { e2 });
-    assert((2 * a <= D) == (2 * a2 <= D2) && (2 * a == D) == (2 * a2 == D2)) by (nonlinear_arith)
-        requires a2 == a * c, D2 == D * c, c > 0;
-}
-
-// ------------------------------------------------------------------------------------------------------------------
-// THE KEY LEMMA: a sticky digit below a guard digit preserves the rounding decision.
-//
-// q0 = trunc(x') and r != 0 the remainder of an exact value x' = q0 + r/D.  The code forms the integer q = q0*b + sgn(r)
-// (one more digit: "sticky") and rounds q / (b*U) where U is a positive power of b (the rounding position is at least
-// two digits above the sticky digit).  Claim: the integer mm and the flag adj obtained for q / (b*U) are the rounding and
-// the flag of the exact x' / U = (q0*D + r) / (D*U)  --  for the directional modes in every base, for the Half modes in an
-// EVEN base (in an odd base 1/2 = 0.hhh.., h = (b-1)/2, and a guard digit h followed by a sticky 1 is taken for "below
-// 1/2" whatever r/D is).
-
-/// for the four directional modes the decision does not depend on the comparison with 1/2
-pub proof fn lemma_tf_mode_dir(m: Mode, i: int, s: Sign, o1: Ordering, o2: Ordering, adj: Rounding)
-    requires !is_half(m)
-    ensures mode_ok(m, i, s, o1, adj) == mode_ok(m, i, s, o2, adj)
-{
-}
-
-pub proof fn lemma_tf_sticky(m: Mode, b: int, D: int, q0: int, r: int, U: int, mm: int, adj: Rounding)
-    requires b >= 2, D >= 1, U >= 1, U % b == 0, b % 2 == 0 || !is_half(m),
-        r != 0, -D < r, r < D, q0 == 0 || ((q0 > 0) == (r > 0)),
-        round_def(m, q0 * b + sgn3i(r), b * U, mm),
-        round_def(Mode::Zero, q0 * b + sgn3i(r), b * U, mm - adj_int(adj)),
-    ensures
-        round_def(m, q0 * D + r, D * U, mm),
-        round_def(Mode::Zero, q0 * D + r, D * U, mm - adj_int(adj)),
-        mm * (D * U) != q0 * D + r,
-{
-    let sg = sgn3i(r);
-    // q0 == i*U + l, truncating
-    let a = iabs(q0);
-    let ai = a / U;
-    let al = a % U;
-    vstd::arithmetic::div_mod::lemma_fundamental_div_mod(a, U);
-    vstd::arithmetic::div_mod::lemma_mod_bound(a, U);
-    vstd::arithmetic::div_mod::lemma_div_pos_is_pos(a, U);
-    let i = if q0 < 0 { -ai } else { ai };
-    let l = if q0 < 0 { -al } else { al };
-    let aiU = ai * U;
-    assert(aiU == U * ai) by (nonlinear_arith) requires aiU == ai * U;
-    let iU = i * U;
-    assert(iU == (if q0 < 0 { -aiU } else { aiU })) by (nonlinear_arith) requires iU == i * U, aiU == ai * U, i == (if q0 < 0 { -ai } else { ai });
-    assert(q0 == iU + l);
-    assert(iabs(l) == al && 0 <= al && al < U);
-    assert(aiU >= 0) by (nonlinear_arith) requires aiU == ai * U, ai >= 0, U >= 1;
-    // the two remainders at the rounding position
-    let (d1, d2) = (b * U, D * U);
-    let (n1, n2) = (l * b + sg, l * D + r);
-    let (q, X) = (q0 * b + sg, q0 * D + r);
-    let (id1, id2) = (i * d1, i * d2);
-    assert(q == id1 + n1) by (nonlinear_arith) requires q == q0 * b + sg, q0 == iU + l, iU == i * U, id1 == i * d1, d1 == b * U, n1 == l * b + sg;
-    assert(X == id2 + n2) by (nonlinear_arith) requires X == q0 * D + r, q0 == iU + l, iU == i * U, id2 == i * d2, d2 == D * U, n2 == l * D + r;
-    let (alb, alD) = (al * b, al * D);
-    assert(alb >= 0 && alD >= 0) by (nonlinear_arith) requires alb == al * b, alD == al * D, al >= 0, b >= 2, D >= 1;
-    let (lb, lD) = (l * b, l * D);
-    assert(lb == (if q0 < 0 { -alb } else { alb }) && lD == (if q0 < 0 { -alD } else { alD })) by (nonlinear_arith)
-        requires lb == l * b, lD == l * D, alb == al * b, alD == al * D, l == (if q0 < 0 { -al } else { al });
-    // l, sg, r have the same sign (l may be zero)
-    assert(q0 == 0 ==> al == 0 && ai == 0) by {
-        if q0 == 0 { vstd::arithmetic::div_mod::lemma_small_mod(0, U as nat); vstd::arithmetic::div_mod::lemma_div_by_multiple(0, U); }
-    }
-    assert(iabs(n1) == alb + 1);
-    assert(iabs(n2) == alD + iabs(r));
-    assert(alb + b <= d1) by (nonlinear_arith) requires alb == al * b, d1 == b * U, al + 1 <= U, b >= 2;
-    assert(alD + D <= d2) by (nonlinear_arith) requires alD == al * D, d2 == D * U, al + 1 <= U, D >= 1;
-    assert(n1 != 0 && n2 != 0 && iabs(n1) < d1 && iabs(n2) < d2);
-    assert(sign_of(n1) == sign_of(n2));
-    assert(d1 >= 1 && d2 >= 1) by (nonlinear_arith) requires d1 == b * U, d2 == D * U, b >= 2, D >= 1, U >= 1;
-    assert(i >= 0 ==> id1 >= 0 && id2 >= 0) by (nonlinear_arith) requires id1 == i * d1, id2 == i * d2, d1 >= 1, d2 >= 1;
-    assert(i <= 0 ==> id1 <= 0 && id2 <= 0) by (nonlinear_arith) requires id1 == i * d1, id2 == i * d2, d1 >= 1, d2 >= 1;
-    assert(q0 > 0 ==> i >= 0);
-    assert(q0 < 0 ==> i <= 0);
-    assert(q0 == 0 ==> i == 0);
-    assert(is_trunc_divrem(q, d1, i, n1));
-    assert(is_trunc_divrem(X, d2, i, n2));
-    // the flag names the truncated quotient i in both settings
-    lemma_trunc_unique(q, d1, i, n1, mm - adj_int(adj));
-    assert(mm == i + adj_int(adj));
-    lemma_divrem_facts(X, d2, i, n2);
-    lemma_inexact(X, d2, i, n2, adj);
-    // same class (sign, comparison with 1/2) of the two remainders
-    lemma_mode_rep(m, i, n1, d1, adj);
-    lemma_mode_rep(m, i, n2, d2, adj);
-    let (c1, c2) = (int_cmp(2 * iabs(n1), d1), int_cmp(2 * iabs(n2), d2));
-    if is_half(m) {
-        // U is even: U = b * (U / b), b = 2 * (b / 2)
-        let (ub, bh) = (U / b, b / 2);
-        vstd::arithmetic::div_mod::lemma_fundamental_div_mod(U, b);
-        vstd::arithmetic::div_mod::lemma_fundamental_div_mod(b, 2);
-        let w = bh * ub;
-        assert(U == 2 * w) by (nonlinear_arith) requires U == b * ub, b == 2 * bh, w == bh * ub;
-        if 2 * al >= U {
-            assert(2 * alb >= d1) by (nonlinear_arith) requires alb == al * b, d1 == b * U, 2 * al >= U, b >= 2;
-            assert(2 * alD >= d2) by (nonlinear_arith) requires alD == al * D, d2 == D * U, 2 * al >= U, D >= 1;
-            assert(c1 == Ordering::Greater && c2 == Ordering::Greater);
-        } else {
-            assert(2 * al + 2 <= U);
-            assert(2 * alb + 2 * b <= d1) by (nonlinear_arith) requires alb == al * b, d1 == b * U, 2 * al + 2 <= U, b >= 2;
-            assert(2 * alD + 2 * D <= d2) by (nonlinear_arith) requires alD == al * D, d2 == D * U, 2 * al + 2 <= U, D >= 1;
-            assert(c1 == Ordering::Less && c2 == Ordering::Less);
-        }
-    } else {
-        lemma_tf_mode_dir(m, i, sign_of(n1), c1, c2, adj);
-    }
-    assert(round_def(m, X, d2, i + adj_int(adj)));
-}
-
 // ------------------------------------------------------------------------------------------------------------------
 // convert_int
 
+/// (s0, e0) = `Repr::new(n, 0)`, ret = `repr_round` of it
 pub proof fn lemma_tf_convert_int<const B: Word>(m: Mode, b: int, p: usize, n: int, s0: int, e0: int, ret: Rounded<Repr<B>>)
     requires b >= 2, norm_of(b, n, 0, s0, e0), s0 == 0 ==> e0 == 0,
-        round_once(m, b, p, s0, e0, ret), tf_inexact_normalized(b, ret),
-    ensures round_val(m, b, p, n, 0, ret), tf_int_repr(rd_val(ret)),
+        round_once(m, b, p, s0, e0, ret),
+    ensures round_val(m, b, p, n, 0, ret),
+        ret is Exact ==> tf_int_repr(rd_val(ret)) && rd_val(ret).exponent <= ndigits(b, n),
 {
     broadcast use ax_ndigits;
     lemma_norm_of(b, n, 0, s0, e0);
-    match ret {
-        Approximation::Exact(r) => {}
-        Approximation::Inexact(r, adj) => {
-            let shift = (ndigits(b, s0) - p) as nat;
-            let mm = choose|mm: int| #[trigger] round_witness(m, b, s0, shift, mm, adj)
-                && same_value(b, r.significand.v(), r.exponent as int, mm, e0 + shift);
-            if r.significand.v() != 0 {
-                assert(norm_of(b, mm, e0 + shift, r.significand.v(), r.exponent as int));
-                lemma_norm_of(b, mm, e0 + shift, r.significand.v(), r.exponent as int);
-            }
-        }
-    }
+}
+/// pos_room (64 * digits <= usize::MAX) passes from an integer to its normalized significand, and gives the exponent room
+pub proof fn lemma_tf_conv_room(b: int, n: int, s0: int, e0: int)
+    requires b >= 2, norm_of(b, n, 0, s0, e0), s0 == 0 ==> e0 == 0, pos_room(ndigits(b, n) as int)
+    ensures pos_room(ndigits(b, s0) as int), e0 + ndigits(b, s0) <= isize::MAX, ndigits(b, s0) <= isize::MAX,
+        !(s0 == 0 && e0 != 0),
+{
+    broadcast use ax_ndigits;
+    lemma_norm_of(b, n, 0, s0, e0);
 }
 
 // ------------------------------------------------------------------------------------------------------------------
@@ -275,144 +160,6 @@ pub proof fn lemma_tf_zero(b: int, p: nat, D: int)
 {
     lemma_ipow_pos(b, p);
     assert(tf_repr_wit(b, p, 0, D, 0, 0, 0));
-}
-
-/// size and sign of the quotient the code computes: b^nn <= |N| < b^(nn+1), b^dd <= D < b^(dd+1), nn + s >= p + dd + 1
-pub proof fn lemma_tf_quot(b: int, p: nat, N: int, D: int, nn: nat, dd: nat, s: nat, q0: int, r: int)
-    requires b >= 2, D > 0,
-        ipow(b, nn) <= iabs(N), iabs(N) < ipow(b, nn + 1), D < ipow(b, dd + 1),
-        nn + s >= p + dd + 1,
-        is_trunc_divrem(N * ipow(b, s), D, q0, r),
-    ensures iabs(q0) >= ipow(b, p), ndigits(b, q0 * b + sgn3i(r)) <= nn + s + 2,
-{
-    let bs = ipow(b, s);
-    lemma_ipow_pos(b, s);
-    let Ns = N * bs;
-    lemma_tf_abs_mul(N, bs);
-    lemma_tf_sign(Ns, D, q0, r);
-    let (aN, a0, ar) = (iabs(N), iabs(q0), iabs(r));
-    let aNs = aN * bs;
-    assert(iabs(Ns) == aNs);
-    // lower bound
-    let (Ln, P, H) = (ipow(b, nn), ipow(b, p), ipow(b, dd + 1));
-    lemma_ipow_pos(b, p);
-    lemma_ipow_add(b, nn, s);
-    lemma_ipow_add(b, p, dd + 1);
-    lemma_ipow_mono(b, p + (dd + 1), nn + s);
-    assert(aNs >= Ln * bs) by (nonlinear_arith) requires aNs == aN * bs, aN >= Ln, bs >= 1;
-    let a0D = a0 * D;
-    if a0 < P {
-        assert(a0D + D <= P * D) by (nonlinear_arith) requires a0D == a0 * D, a0 + 1 <= P, D > 0;
-        assert(P * D < P * H) by (nonlinear_arith) requires D < H, P >= 1;
-    }
-    // upper bound
-    let Hn = ipow(b, nn + 1);
-    lemma_ipow_add(b, nn + 1, s);
-    assert(aNs < Hn * bs) by (nonlinear_arith) requires aNs == aN * bs, aN < Hn, bs >= 1;
-    let T = ipow(b, nn + 1 + s);
-    assert(a0 <= a0D) by (nonlinear_arith) requires a0D == a0 * D, a0 >= 0, D >= 1;
-    assert(a0 + 1 <= T);
-    let Q = q0 * b + sgn3i(r);
-    let q0b = q0 * b;
-    lemma_tf_abs_mul(q0, b);
-    let a0b = a0 * b;
-    assert(iabs(Q) <= a0b + 1);
-    assert(a0b + b <= T * b) by (nonlinear_arith) requires a0b == a0 * b, a0 + 1 <= T, b >= 2;
-    assert(ipow(b, nn + s + 2) == b * ipow(b, (nn + s + 2 - 1) as nat));
-    assert((nn + s + 2 - 1) as nat == nn + 1 + s);
-    assert(T * b == b * T) by (nonlinear_arith);
-    lemma_ndigits_le(b, Q, nn + s + 2);
-}
-
-/// the integer with a sticky digit +-1 is not divisible by the base
-pub proof fn lemma_tf_sticky_normalized(b: int, q0: int, sg: int)
-    requires b >= 2, sg == 1 || sg == -1
-    ensures (q0 * b + sg) % b != 0
-{
-    let q = q0 * b + sg;
-    if q % b == 0 {
-        let t = q / b;
-        vstd::arithmetic::div_mod::lemma_fundamental_div_mod(q, b);
-        let d = t - q0;
-        let bd = b * d;
-        assert(bd == sg) by (nonlinear_arith) requires q == b * t, q == q0 * b + sg, d == t - q0, bd == b * d;
-        assert(false) by (nonlinear_arith) requires bd == b * d, b >= 2, bd == 1 || bd == -1;
-    }
-}
-
-/// remainder != 0: the sticky integer q0*b +- 1 was rounded (always Inexact: it has at least p + 2 digits)
-pub proof fn lemma_tf_case_sticky<const B: Word>(m: Mode, b: int, pu: usize, N: int, D: int, s: nat, q0: int, r: int,
-        ret1: Rounded<Repr<B>>, ret: Rounded<Repr<B>>) -> (w: (nat, int))
-    requires b >= 2, pu >= 1, D > 0, b % 2 == 0 || !is_half(m),
-        is_trunc_divrem(N * ipow(b, s), D, q0, r), iabs(q0) >= ipow(b, pu as nat), r != 0,
-        round_once(m, b, pu, q0 * b + sgn3i(r), 0, ret1),
-        tf_shifted(ret1, ret, (s + 1) as int),
-    ensures ratio_round_wit(m, b, pu as nat, N, D, s, w.0, w.1, ret), ret is Inexact,
-{
-    broadcast use ax_ndigits;
-    let p = pu as nat;
-    let X = N * ipow(b, s);
-    lemma_tf_sign(X, D, q0, r);
-    let sg = sgn3i(r);
-    let q = q0 * b + sg;
-    let (a0, ar) = (iabs(q0), iabs(r));
-    let P = ipow(b, p);
-    lemma_ipow_pos(b, p);
-    lemma_tf_abs_mul(q0, b);
-    let a0b = a0 * b;
-    assert(a0b >= 0) by (nonlinear_arith) requires a0b == a0 * b, a0 >= 0, b >= 2;
-    let q0b = q0 * b;
-    assert((q0 > 0 ==> q0b > 0) && (q0 < 0 ==> q0b < 0)) by (nonlinear_arith) requires q0b == q0 * b, b >= 2;
-    assert(iabs(q) == a0b + 1);
-    assert(ipow(b, p + 1) == b * ipow(b, ((p + 1) - 1) as nat));
-    assert(((p + 1) - 1) as nat == p);
-    assert(a0b >= b * P) by (nonlinear_arith) requires a0b == a0 * b, a0 >= P, b >= 2;
-    lemma_ndigits_gt(b, q, p + 1);
-    let nd = ndigits(b, q);
-    match ret1 {
-        Approximation::Exact(r1) => { assert(false); (0, 0) }
-        Approximation::Inexact(r1, adj) => {
-            let shift1 = (nd - p) as nat;
-            let mm = choose|mm: int| #[trigger] round_witness(m, b, q, shift1, mm, adj)
-                && same_value(b, r1.significand.v(), r1.exponent as int, mm, 0 + shift1 as int);
-            let k = (shift1 - 1) as nat;
-            let U = ipow(b, k);
-            lemma_ipow_pos(b, k);
-            assert(ipow(b, shift1) == b * ipow(b, (shift1 - 1) as nat));
-            lemma_shift_divisible(b, 1, k);
-            assert(1 * U == U);
-            lemma_tf_sticky(m, b, D, q0, r, U, mm, adj);
-            assert(q0 * D + r == X);
-            let Dn = D * U;
-            // window
-            let (L, H, Pm) = (ipow(b, (p + k - 1) as nat), ipow(b, p + k), ipow(b, (p - 1) as nat));
-            assert((nd - 1) as nat == p + k);
-            assert(ipow(b, nd) == b * ipow(b, (nd - 1) as nat));
-            assert(ipow(b, p + k) == b * ipow(b, ((p + k) - 1) as nat));
-            assert(L <= a0) by (nonlinear_arith) requires b * L <= a0b + 1, a0b == a0 * b, b >= 2;
-            assert(a0 + 1 <= H) by (nonlinear_arith) requires a0b + 1 < b * H, a0b == a0 * b, b >= 2;
-            lemma_ipow_add(b, (p - 1) as nat, k);
-            lemma_ipow_add(b, p, k);
-            assert(((p - 1) as nat + k) as nat == (p + k - 1) as nat);
-            let a0D = a0 * D;
-            assert(Pm * Dn <= a0D) by (nonlinear_arith) requires L == Pm * U, Dn == D * U, L <= a0, a0D == a0 * D, D > 0;
-            assert(a0D + D <= P * Dn) by (nonlinear_arith) requires H == P * U, Dn == D * U, a0 + 1 <= H, a0D == a0 * D, D > 0;
-            // value
-            match ret {
-                Approximation::Exact(_) => { assert(false); }
-                Approximation::Inexact(r2, adj2) => {
-                    lemma_same_value_top(b, r1.significand.v(), r1.exponent as int, mm, shift1 as int);
-                    if r1.significand.v() == 0 {
-                        assert(same_value(b, r2.significand.v(), r2.exponent as int, mm, k - s));
-                    } else {
-                        assert(same_value(b, r2.significand.v(), r2.exponent as int, mm, k - s));
-                    }
-                }
-            }
-            assert(ratio_round_wit(m, b, p, N, D, s, k, mm, ret));
-            (k, mm)
-        }
-    }
 }
 
 pub proof fn lemma_tf_ipow1(b: int)
@@ -442,118 +189,6 @@ pub proof fn lemma_tf_value<const B: Word>(b: int, r1: Repr<B>, r2: Repr<B>, mm:
         assert(mm == 0);
         let (e1, e2) = (r2.exponent as int, e - t);
         if e1 <= e2 { assert(0 * ipow(b, (e2 - e1) as nat) == 0); } else { assert(0 * ipow(b, (e1 - e2) as nat) == 0); }
-    }
-}
-
-/// a zero significand only represents zero
-pub proof fn lemma_tf_zero_sig<const B: Word>(b: int, r: Repr<B>)
-    requires b >= 2
-    ensures forall|mm: int, e: int| #[trigger] same_value(b, r.significand.v(), r.exponent as int, mm, e) && r.significand.v() == 0 ==> mm == 0
-{
-    assert forall|mm: int, e: int| #[trigger] same_value(b, r.significand.v(), r.exponent as int, mm, e) && r.significand.v() == 0 implies mm == 0 by {
-        lemma_same_value_top(b, r.significand.v(), r.exponent as int, mm, e);
-    }
-}
-
-/// remainder == 0: the quotient itself (with a zero appended) went through convert_int
-pub proof fn lemma_tf_case_div<const B: Word>(m: Mode, b: int, pu: usize, N: int, D: int, s: nat, q0: int, s0: int, e0: int,
-        ret1: Rounded<Repr<B>>, ret: Rounded<Repr<B>>) -> (w: (nat, nat, int))
-    requires b >= 2, pu >= 1, D > 0, N * ipow(b, s) == q0 * D, q0 != 0,
-        norm_of(b, q0 * b, 0, s0, e0), round_once(m, b, pu, s0, e0, ret1),
-        tf_shifted(ret1, ret, (s + 1) as int),
-    ensures ratio_round_wit(m, b, pu as nat, N, D, w.0, w.1, w.2, ret),
-{
-    broadcast use ax_ndigits;
-    let p = pu as nat;
-    let q = q0 * b;
-    assert(q != 0) by (nonlinear_arith) requires q == q0 * b, q0 != 0, b >= 2;
-    lemma_norm_of(b, q, 0, s0, e0);
-    let k0 = e0 as nat;
-    let E0 = ipow(b, k0);
-    lemma_ipow_pos(b, k0);
-    lemma_tf_ipow1(b);
-    assert(q == s0 * E0) by { if e0 <= 0 { assert(s0 == q * ipow(b, 0)); assert(s0 * 1 == s0); } }
-    let bs = ipow(b, s);
-    lemma_ipow_pos(b, s);
-    let c = D * E0;
-    assert(c > 0) by (nonlinear_arith) requires c == D * E0, D > 0, E0 >= 1;
-    let (P, Pm) = (ipow(b, p), ipow(b, (p - 1) as nat));
-    lemma_ipow_pos(b, p);
-    lemma_ipow_pos(b, (p - 1) as nat);
-    let nd0 = ndigits(b, s0);
-    match ret1 {
-        Approximation::Exact(r1) => {
-            let t = (p - nd0) as nat;
-            let T = ipow(b, t);
-            lemma_ipow_pos(b, t);
-            let mm = s0 * T;
-            lemma_ndigits_shift(b, s0, t);
-            assert(ndigits(b, mm) == p);
-            let s2 = s + 1 + t;
-            let bT = b * T;
-            assert(ipow(b, 1 + t) == b * ipow(b, ((1 + t) - 1) as nat));
-            assert(((1 + t) - 1) as nat == t);
-            lemma_ipow_add(b, s, 1 + t);
-            assert(s + (1 + t) == s2);
-            let X2 = N * ipow(b, s2);
-            let Xs = N * bs;
-            assert(X2 == Xs * bT) by (nonlinear_arith) requires X2 == N * (bs * bT), Xs == N * bs;
-            let DT = D * T;
-            assert(Xs * bT == q * DT) by (nonlinear_arith) requires Xs == q0 * D, bT == b * T, q == q0 * b, DT == D * T;
-            assert(q * DT == mm * c) by (nonlinear_arith) requires q == s0 * E0, DT == D * T, mm == s0 * T, c == D * E0;
-            lemma_round_exact(m, mm, c);
-            lemma_tf_abs_mul(mm, c);
-            let am = iabs(mm);
-            assert(Pm * c <= am * c && am * c < P * c) by (nonlinear_arith) requires Pm <= am, am < P, c > 0;
-            match ret {
-                Approximation::Exact(r2) => {
-                    let (e1, e2) = (r2.exponent as int, k0 - s2);
-                    assert(e1 == e0 - (s + 1));
-                    if t == 0 { assert(mm * ipow(b, 0) == s0); } else { assert((e1 - e2) as nat == t); }
-                    assert(same_value(b, r2.significand.v(), e1, mm, e2));
-                }
-                Approximation::Inexact(_, _) => { assert(false); }
-            }
-            assert(ratio_round_wit(m, b, p, N, D, s2, k0, mm, ret));
-            (s2, k0, mm)
-        }
-        Approximation::Inexact(r1, adj) => {
-            let shift1 = (nd0 - p) as nat;
-            let mm = choose|mm: int| #[trigger] round_witness(m, b, s0, shift1, mm, adj)
-                && same_value(b, r1.significand.v(), r1.exponent as int, mm, e0 + shift1);
-            let u = ipow(b, shift1);
-            lemma_ipow_pos(b, shift1);
-            let (s2, k2) = (s + 1, k0 + shift1);
-            lemma_ipow_add(b, s, 1);
-            lemma_ipow_add(b, k0, shift1);
-            let X2 = N * ipow(b, s2);
-            let Dn2 = D * ipow(b, k2);
-            let Xs = N * bs;
-            assert(X2 == Xs * b) by (nonlinear_arith) requires X2 == N * (bs * b), Xs == N * bs;
-            assert(Xs * b == s0 * c) by (nonlinear_arith) requires Xs == q0 * D, q == q0 * b, q == s0 * E0, c == D * E0;
-            assert(Dn2 == u * c) by (nonlinear_arith) requires Dn2 == D * (E0 * u), c == D * E0;
-            lemma_tf_round_scale(m, s0, u, c, mm);
-            lemma_tf_round_scale(Mode::Zero, s0, u, c, mm - adj_int(adj));
-            // window
-            lemma_ipow_add(b, (p - 1) as nat, shift1);
-            lemma_ipow_add(b, p, shift1);
-            assert(((p - 1) as nat + shift1) as nat == (nd0 - 1) as nat);
-            assert(p + shift1 == nd0);
-            lemma_tf_abs_mul(s0, c);
-            let a0 = iabs(s0);
-            let (Pmu, Pu) = (Pm * u, P * u);
-            assert(Pm * (u * c) <= a0 * c && a0 * c < P * (u * c)) by (nonlinear_arith)
-                requires Pmu == Pm * u, Pu == P * u, Pmu <= a0, a0 < Pu, c > 0;
-            match ret {
-                Approximation::Exact(_) => { assert(false); }
-                Approximation::Inexact(r2, adj2) => {
-                    lemma_tf_value(b, r1, r2, mm, e0 + shift1, (s + 1) as int);
-                    assert(e0 + shift1 - (s + 1) == k2 - s2);
-                }
-            }
-            assert(ratio_round_wit(m, b, p, N, D, s2, k2, mm, ret));
-            (s2, k2, mm)
-        }
     }
 }
 
@@ -658,35 +293,175 @@ pub proof fn lemma_tf_exact_iff<const B: Word>(m: Mode, b: int, p: nat, N: int, 
     }
 }
 
-/// assembly: what `convert_int` returned for the sticky integer, moved down by s + 1 digits, is the rational rounded once
-pub proof fn lemma_tf_post<const B: Word>(m: Mode, b: int, pu: usize, N: int, D: int, s: nat, q0: int, r: int, ret: Rounded<Repr<B>>)
-    requires b >= 2, pu >= 1, D > 0, N != 0, b % 2 == 0 || !is_half(m),
-        is_trunc_divrem(N * ipow(b, s), D, q0, r), iabs(q0) >= ipow(b, pu as nat),
-        exists|ret1: Rounded<Repr<B>>| #[trigger] round_val(m, b, pu, q0 * b + sgn3i(r), 0, ret1) && tf_shifted(ret1, ret, (s + 1) as int),
+
+/// floor logarithms against the digit count: b^k <= |v| ==> k < digits, |v| < b^k ==> digits <= k
+pub proof fn lemma_tf_ilog_nd(b: int, v: int)
+    requires b >= 2, v != 0
+    ensures forall|k: nat| #[trigger] ipow(b, k) <= iabs(v) ==> k < ndigits(b, v),
+        forall|k: nat| iabs(v) < #[trigger] ipow(b, k) ==> ndigits(b, v) <= k,
+{
+    broadcast use ax_ndigits;
+    let nd = ndigits(b, v);
+    assert forall|k: nat| #[trigger] ipow(b, k) <= iabs(v) implies k < nd by {
+        if k >= nd { lemma_ipow_mono(b, nd, k); }
+    }
+    assert forall|k: nat| iabs(v) < #[trigger] ipow(b, k) implies nd <= k by {
+        if nd > k { lemma_ipow_mono(b, k, (nd - 1) as nat); }
+    }
+}
+
+/// size of the quotient the code computes: b^nn <= |N| < b^(nn+1), b^dd <= D < b^(dd+1), nn + s >= p + dd:
+/// the quotient of N b^s by D has at least p digits (and not more than nn + s + 1)
+pub proof fn lemma_tf_quot(b: int, p: nat, N: int, D: int, nn: nat, dd: nat, s: nat, q0: int, r: int)
+    requires b >= 2, p >= 1, D > 0,
+        ipow(b, nn) <= iabs(N), iabs(N) < ipow(b, nn + 1), D < ipow(b, dd + 1),
+        nn + s >= p + dd,
+        is_trunc_divrem(N * ipow(b, s), D, q0, r),
+    ensures iabs(q0) >= ipow(b, (p - 1) as nat), q0 != 0, ndigits(b, q0) >= p, ndigits(b, q0) <= nn + s + 1,
+{
+    let bs = ipow(b, s);
+    lemma_ipow_pos(b, s);
+    let Ns = N * bs;
+    lemma_tf_abs_mul(N, bs);
+    lemma_tf_sign(Ns, D, q0, r);
+    let (aN, a0, ar) = (iabs(N), iabs(q0), iabs(r));
+    let aNs = aN * bs;
+    assert(iabs(Ns) == aNs);
+    // lower bound: |N b^s| >= b^(nn+s) >= b^(p-1+dd+1) = b^(p-1) b^(dd+1) > b^(p-1) D
+    let (Ln, Pm, H) = (ipow(b, nn), ipow(b, (p - 1) as nat), ipow(b, dd + 1));
+    lemma_ipow_pos(b, (p - 1) as nat);
+    lemma_ipow_add(b, nn, s);
+    lemma_ipow_add(b, (p - 1) as nat, dd + 1);
+    assert(((p - 1) as nat + (dd + 1)) as nat == p + dd);
+    lemma_ipow_mono(b, p + dd, nn + s);
+    assert(aNs >= Ln * bs) by (nonlinear_arith) requires aNs == aN * bs, aN >= Ln, bs >= 1;
+    let a0D = a0 * D;
+    if a0 < Pm {
+        assert(a0D + D <= Pm * D) by (nonlinear_arith) requires a0D == a0 * D, a0 + 1 <= Pm, D > 0;
+        assert(Pm * D < Pm * H) by (nonlinear_arith) requires D < H, Pm >= 1;
+    }
+    lemma_ndigits_gt(b, q0, (p - 1) as nat);
+    // upper bound: |q0| <= |q0| D <= |N b^s| < b^(nn+1+s)
+    let Hn = ipow(b, nn + 1);
+    lemma_ipow_add(b, nn + 1, s);
+    assert(aNs < Hn * bs) by (nonlinear_arith) requires aNs == aN * bs, aN < Hn, bs >= 1;
+    assert(a0 <= a0D) by (nonlinear_arith) requires a0D == a0 * D, a0 >= 0, D >= 1;
+    lemma_ndigits_le(b, q0, nn + 1 + s);
+}
+
+/// the digits of the quotient beyond the precision move into the remainder:
+/// X = q D + r, q = hi b^ex + lo (both truncating), q has p + ex digits  ==>  X = hi (D b^ex) + (lo D + r) truncating,
+/// and hi has exactly p digits
+pub proof fn lemma_tf_split(b: int, p: nat, X: int, D: int, q: int, r: int, ex: nat, hi: int, lo: int)
+    requires b >= 2, p >= 1, D > 0, q != 0, is_trunc_divrem(X, D, q, r), ndigits(b, q) == p + ex,
+        is_trunc_divrem(q, ipow(b, ex), hi, lo),
+    ensures is_trunc_divrem(X, D * ipow(b, ex), hi, lo * D + r), D * ipow(b, ex) > 0,
+        ipow(b, (p - 1) as nat) <= iabs(hi), iabs(hi) < ipow(b, p),
+{
+    broadcast use ax_ndigits;
+    let u = ipow(b, ex);
+    lemma_ipow_pos(b, ex);
+    let Dn = D * u;
+    let r2 = lo * D + r;
+    assert(Dn > 0 && Dn >= D) by (nonlinear_arith) requires Dn == D * u, D > 0, u >= 1;
+    lemma_tf_sign(X, D, q, r);
+    lemma_tf_sign(q, u, hi, lo);
+    let (ah, al, ar, aq) = (iabs(hi), iabs(lo), iabs(r), iabs(q));
+    // X == hi Dn + r2
+    let (hu, hDn, loD) = (hi * u, hi * Dn, lo * D);
+    assert(X == hDn + r2) by (nonlinear_arith) requires X == q * D + r, q == hu + lo, hu == hi * u, hDn == hi * Dn, Dn == D * u, r2 == loD + r, loD == lo * D;
+    // lo D has the sign of lo
+    lemma_tf_abs_mul(lo, D);
+    let alD = al * D;
+    assert((lo > 0 ==> loD > 0) && (lo < 0 ==> loD < 0) && (lo == 0 ==> loD == 0)) by (nonlinear_arith) requires loD == lo * D, D > 0;
+    assert(alD + D <= Dn) by (nonlinear_arith) requires alD == al * D, Dn == D * u, al + 1 <= u, D > 0;
+    assert(iabs(r2) == alD + ar);
+    assert(iabs(r2) < Dn);
+    assert(r2 == 0 || ((r2 > 0) == (X > 0)));
+    // hi has p digits
+    let (Pm, P) = (ipow(b, (p - 1) as nat), ipow(b, p));
+    lemma_ipow_add(b, (p - 1) as nat, ex);
+    lemma_ipow_add(b, p, ex);
+    assert(((p - 1) as nat + ex) as nat == ((p + ex) - 1) as nat);
+    let ahu = ah * u;
+    assert(aq == ahu + al);
+    if ah < Pm {
+        assert(ahu + u <= Pm * u) by (nonlinear_arith) requires ahu == ah * u, ah + 1 <= Pm, u >= 1;
+    }
+    if ah >= P {
+        assert(ahu >= P * u) by (nonlinear_arith) requires ahu == ah * u, ah >= P, u >= 1;
+    }
+}
+
+/// an integer of at most p digits, or +-b^p, is converted exactly by `convert_int` at precision p
+pub proof fn lemma_tf_conv_exact<const B: Word>(m: Mode, b: int, pu: usize, mm: int)
+    requires b >= 2, pu >= 1, iabs(mm) <= ipow(b, pu as nat)
+    ensures forall|ret1: Rounded<Repr<B>>| #[trigger] round_val(m, b, pu, mm, 0, ret1) ==> ret1 is Exact,
+        ndigits(b, mm) <= pu + 1,
+{
+    broadcast use ax_ndigits;
+    let p = pu as nat;
+    let P = ipow(b, p);
+    lemma_ipow_pos(b, p);
+    lemma_ipow_strict(b, p, p + 1);
+    lemma_ndigits_le(b, mm, p + 1);
+    assert forall|ret1: Rounded<Repr<B>>| #[trigger] round_val(m, b, pu, mm, 0, ret1) implies ret1 is Exact by {
+        let (s0, e0) = choose|s0: int, e0: int| #[trigger] norm_of(b, mm, 0, s0, e0) && round_once(m, b, pu, s0, e0, ret1);
+        lemma_norm_of(b, mm, 0, s0, e0);
+        if iabs(mm) < P {
+            lemma_ndigits_le(b, mm, p);
+        } else {
+            // mm == +-b^p: p + 1 digits, but divisible by b: the normalized significand is shorter
+            assert(((p + 1) - 1) as nat == p);
+            lemma_ndigits_unique(b, mm, p + 1);
+            let sg: int = if mm < 0 { -1 } else { 1 };
+            assert(mm == sg * P);
+            lemma_shift_divisible(b, sg, p);
+            lemma_tf_ipow1(b);
+            if e0 <= 0 { assert(s0 == mm * ipow(b, 0)); assert(s0 == mm); assert(false); }
+        }
+        assert(ndigits(b, s0) <= p);
+    }
+}
+
+/// assembly: hi (+ adj) went through `convert_int` (exact) and `>> (s - k)`: the rational rounded once
+pub proof fn lemma_tf_post<const B: Word>(m: Mode, b: int, pu: usize, N: int, D: int, s: nat, k: nat, hi: int, r2: int,
+        rounded: Rounded<IBig>, ret: Rounded<Repr<B>>)
+    requires b >= 2, pu >= 1, D > 0, N != 0,
+        is_trunc_divrem(N * ipow(b, s), D * ipow(b, k), hi, r2), D * ipow(b, k) > 0,
+        ipow(b, (pu - 1) as nat) <= iabs(hi), iabs(hi) < ipow(b, pu as nat),
+        tf_rounded(m, N * ipow(b, s), D * ipow(b, k), hi, r2, rounded),
+        exists|ret1: Rounded<Repr<B>>| #[trigger] round_val(m, b, pu, rd_val0(rounded).v(), 0, ret1)
+            && tf_shifted(and_then_spec(rounded, ret1), ret, s - k),
     ensures ratio_round_once(m, b, pu as nat, N, D, ret),
         (ret is Exact) == ratio_representable(b, pu as nat, N, D),
 {
     let p = pu as nat;
-    let q = q0 * b + sgn3i(r);
-    let ret1 = choose|ret1: Rounded<Repr<B>>| #[trigger] round_val(m, b, pu, q, 0, ret1) && tf_shifted(ret1, ret, (s + 1) as int);
-    let (s0, e0) = choose|s0: int, e0: int| #[trigger] norm_of(b, q, 0, s0, e0) && round_once(m, b, pu, s0, e0, ret1);
-    lemma_ipow_pos(b, p);
-    if r != 0 {
-        lemma_tf_sticky_normalized(b, q0, sgn3i(r));
-        lemma_norm_of(b, q, 0, s0, e0);
-        assert(norm_of(b, q, 0, s0, e0));
-        assert(q != 0) by { if q == 0 { assert(0int % b == 0) by (nonlinear_arith) requires b >= 2; } }
-        assert(s0 != 0);
-        assert(e0 >= 0);
-        if e0 > 0 { lemma_shift_divisible(b, s0, e0 as nat); assert(q == s0 * ipow(b, e0 as nat)); assert(false); }
-        lemma_tf_ipow1(b);
-        assert(e0 == 0);
-        assert(s0 == q * ipow(b, 0));
-        assert(s0 == q && e0 == 0);
-        let w = lemma_tf_case_sticky(m, b, pu, N, D, s, q0, r, ret1, ret);
-        lemma_tf_exact_iff(m, b, p, N, D, s, w.0, w.1, ret);
-    } else {
-        let w = lemma_tf_case_div(m, b, pu, N, D, s, q0, s0, e0, ret1, ret);
-        lemma_tf_exact_iff(m, b, p, N, D, w.0, w.1, w.2, ret);
+    let (X, Dn) = (N * ipow(b, s), D * ipow(b, k));
+    let mm = rd_val0(rounded).v();
+    let ret1 = choose|ret1: Rounded<Repr<B>>| #[trigger] round_val(m, b, pu, mm, 0, ret1) && tf_shifted(and_then_spec(rounded, ret1), ret, s - k);
+    let (Pm, P) = (ipow(b, (p - 1) as nat), ipow(b, p));
+    lemma_ipow_pos(b, (p - 1) as nat);
+    lemma_tf_conv_exact::<B>(m, b, pu, mm);
+    let (s0, e0) = choose|s0: int, e0: int| #[trigger] norm_of(b, mm, 0, s0, e0) && round_once(m, b, pu, s0, e0, ret1);
+    // the decision
+    lemma_tf_sign(X, Dn, hi, r2);
+    lemma_divrem_facts(X, Dn, hi, r2);
+    let ah = iabs(hi);
+    let ahD = ah * Dn;
+    assert(Pm * Dn <= ahD) by (nonlinear_arith) requires ahD == ah * Dn, Pm <= ah, Dn > 0;
+    assert(ahD + Dn <= P * Dn) by (nonlinear_arith) requires ahD == ah * Dn, ah + 1 <= P, Dn > 0;
+    match rounded {
+        Approximation::Exact(_) => { lemma_round_exact(m, hi, Dn); }
+        Approximation::Inexact(_, adj) => { lemma_inexact(X, Dn, hi, r2, adj); }
     }
+    // the value
+    match (ret1, ret) {
+        (Approximation::Exact(r1), Approximation::Exact(r2_)) => { lemma_tf_value(b, r1, r2_, mm, 0, s - k); }
+        (Approximation::Exact(r1), Approximation::Inexact(r2_, _)) => { lemma_tf_value(b, r1, r2_, mm, 0, s - k); }
+        _ => { assert(false); }
+    }
+    assert(0 - (s - k) == k - s);
+    assert(ratio_round_wit(m, b, p, N, D, s, k, mm, ret));
+    lemma_tf_exact_iff(m, b, p, N, D, s, k, mm, ret);
 }
